@@ -25,17 +25,17 @@ import subprocess
 import tempfile
 
 HEADER = """$c \\imp ( ) #Pattern |- $.
-$v ph0 ph1 ph2 $.
-ph0-is-pattern $f #Pattern ph0 $.
-ph1-is-pattern $f #Pattern ph1 $.
-ph2-is-pattern $f #Pattern ph2 $.
-imp-is-pattern $a #Pattern ( \\imp ph0 ph1 ) $.
-proof-rule-prop-1 $a |- ( \\imp ph0 ( \\imp ph1 ph0 ) ) $.
-proof-rule-prop-2 $a |- ( \\imp ( \\imp ph0 ( \\imp ph1 ph2 ) ) ( \\imp ( \\imp ph0 ph1 ) ( \\imp ph0 ph2 ) ) ) $.
-rule.refl_1 $a |- ( \\imp ph0 ph0 ) $.
+$v ps ph ch $.
+ps-is-pattern $f #Pattern ps $.
+ph-is-pattern $f #Pattern ph $.
+ch-is-pattern $f #Pattern ch $.
+imp-is-pattern $a #Pattern ( \\imp ps ph ) $.
+proof-rule-prop-1 $a |- ( \\imp ps ( \\imp ph ps ) ) $.
+proof-rule-prop-2 $a |- ( \\imp ( \\imp ps ( \\imp ph ch ) ) ( \\imp ( \\imp ps ph ) ( \\imp ps ch ) ) ) $.
+rule.refl_1 $a |- ( \\imp ps ps ) $.
 """
-STATEMENTS = {0: '( \\imp ph1 ph1 )', 1: '( \\imp ph0 ph0 )', 2: '( \\imp ph2 ( \\imp ph0 ph2 ) )', 3: '( \\imp ph2 ( \\imp ph1 ( \\imp ph0 ph2 ) ) )'}
-MAND = {0: ['ph1'], 1: ['ph0'], 2: ['ph0', 'ph2'], 3: ['ph0', 'ph1', 'ph2']}     # database order of the $f statements
+STATEMENTS = {0: '( \\imp ph ph )', 1: '( \\imp ps ps )', 2: '( \\imp ch ( \\imp ps ch ) )', 3: '( \\imp ch ( \\imp ph ( \\imp ps ch ) ) )'}
+MAND = {0: ['ph'], 1: ['ps'], 2: ['ps', 'ch'], 3: ['ps', 'ph', 'ch']}     # database order of the $f statements (ps, ph, ch): deliberately NOT the lexicographic order (ch, ph, ps)
 
 
 def enc_number(n):
